@@ -100,6 +100,26 @@ func (p *Program) FindFunc(key string) *ssa.Function {
 		return f
 	}
 	var res *ssa.Function
+	if i := strings.Index(key, "$"); i >= 0 {
+		// function literal: Parent$k (possibly nested), found among the anonymous functions of its parent
+		findMu.Unlock()
+		parent := p.FindFunc(key[:i])
+		findMu.Lock()
+		var walk func(f *ssa.Function)
+		walk = func(f *ssa.Function) {
+			for _, af := range f.AnonFuncs {
+				if af.String() == key {
+					res = af
+				}
+				walk(af)
+			}
+		}
+		if parent != nil {
+			walk(parent)
+		}
+		p.funcs[key] = res
+		return res
+	}
 	if strings.HasPrefix(key, "(") {
 		end := strings.Index(key, ")")
 		recv := key[1:end]
